@@ -35,7 +35,7 @@ MC = {
     "C13": [mc("MC_LibQB", "MC_LibQB"), mc("MC_QVec", "MC_QVec"), mc("QLine", "MC_QLine", workers=4)],
     "C15": [mc("HuffWM", "MC_HuffWM_k4_quick", "MC_HuffWM_k4"), mc("HuffWM", "MC_HuffWM_k2_quick", "MC_HuffWM_k2")],
     "C17": [mc("Words", "MC_Words", workers=6)],
-    "C18": [mc("MC_Conc", "MC_Conc_none", workers=4), mc("MC_Conc", "MC_Conc_atomic_pair", workers=4), mc("MC_Conc", "MC_Conc_torn_single", workers=4)],
+    "C18": [mc("MC_Conc", "MC_Conc_none", workers=4), mc("MC_Conc", "MC_Conc_atomic_pair", workers=4), mc("MC_Conc", "MC_Conc_torn_single", workers=4), mc("MC_Conc", "MC_Conc_lazy_linear", workers=4)],
     "C19": [mc("MC_BitVecLines", "MC_BitVecLines", "MC_BitVecLines_thorough")],
 }
 
